@@ -345,6 +345,13 @@ theorem c03_coinbase_step (cfg : Cfg) (hs : cfg.indexSats = true) (blk : Block)
   indexTx_cb_step cfg hs blk tx bc bc' NOld h0 hcb hinv h
 
 open OnSatLift in
+/-- the mid-block invariant is satisfiable: it holds at the start of any block on the empty index
+(and, by `BMid.start`, at the start of a block on any state satisfying `UtxoSat` and `NullLen`) -/
+example (cfg : Cfg) (hs : cfg.indexSats = true) (blk : Block) :
+    BMid (rangesAt ({} : State).utxo OutPoint.null) (Sched.bc0A cfg {} blk) :=
+  BMid.start cfg hs {} blk (fun p hp => by cases hp) nullLen_empty
+
+open OnSatLift in
 /-- **Stage (b): one block** (`index_utxo_entries` + commit + rune pass + header).  With the sat
 index and the block's inscription pass on, no zero txid and no special outpoint spent outside the
 first transaction (`BlockPlain`), a coinbase first, and `rangesValue (null entry) = lostSats`
